@@ -175,6 +175,9 @@ func (m *c10cModel) enabled(ev c08srvEv, enforce bool) bool {
 	case "RST":
 		s := idx()
 		return s.opened && !s.dead && !(s.resp && !s.srvOpen && !s.hasBody)
+	case "RD":
+		s := idx()
+		return s.srvOpen && !s.dead
 	}
 	return false
 }
@@ -250,7 +253,7 @@ func (m *c10cModel) apply(ev c08srvEv) {
 		m.connView += s.buffered
 		s.buffered = 0
 		m.kill(s)
-	case "CANCEL", "RST":
+	case "CANCEL", "RST", "RD":
 		m.kill(idx())
 	}
 }
@@ -636,6 +639,28 @@ func c10cliRunCase(w *vx.W, t testing.TB, cs c09cliCase, mode c10sMode) (res c10
 			}
 			s.srvRST = true
 			env.wr(env.tc.fr.WriteRSTStream(id, ErrCodeCancel))
+		case "RD":
+			// RST_STREAM immediately followed by a DATA frame in one burst (no
+			// quiescence in between): the DATA frame can reach the read loop
+			// while the reset stream is still registered.
+			if s == nil || !s.srvOpen() || mon.connView < 4 {
+				applied = false
+				break
+			}
+			kind = "RST+DATA-burst"
+			res.refundPaths[kind] = true
+			s.srvRST = true
+			s.irregular, s.regular = true, false
+			err1 := env.tc.fr.WriteRSTStream(id, ErrCodeCancel)
+			err2 := env.tc.fr.WriteData(id, false, c08srvPattern(s.sent, 4))
+			s.sent += 4
+			mon.connView -= 4
+			res.dataSent++
+			if err1 != nil {
+				env.wr(err1)
+			} else {
+				env.wr(err2)
+			}
 		default:
 			return res, "unknown event " + es
 		}
@@ -827,7 +852,7 @@ func c10cliRunPartList(c *vx.Ctx, mode c10sMode, parts []c10cliPart) {
 
 // c10cliRunParts is the client part of C10.
 func c10cliRunParts(c *vx.Ctx) {
-	c.Rule("EV, client part: for each part (configured stream window 8 or default x seed prefix) every event sequence of depth 1..D after the seed over {REQ (GET, or POST whose body stays open so that the stream stays registered) (<=2 requests), response HEADERS(content-length none|5|10, END_STREAM?), DATA(stream, len, padding, END_STREAM) inside the server's view of both windows (also before HEADERS, after END_STREAM, on reset/cancelled/closed streams, beyond Content-Length), application Read(n), Body.Close, request cancel, server RST_STREAM}; each sequence runs on a fresh real Transport ClientConn in its own synctest bubble; after every event at quiescence: white-box cc.inflow.avail+unsent+sum(unread bytes of open response bodies) == configured connection window, the same per open stream, advertised window == wire view, every WINDOW_UPDATE keeps the server's view <= configured and <= 2^31-1, and with no unread response data the server's view is within inflowMinRefresh of the configured window. non-trivial = at least one DATA frame was sent")
+	c.Rule("EV, client part: for each part (configured stream window 8 or default x seed prefix) every event sequence of depth 1..D after the seed over {REQ (GET, or POST whose body stays open so that the stream stays registered) (<=2 requests), response HEADERS(content-length none|5|10, END_STREAM?), DATA(stream, len, padding, END_STREAM) inside the server's view of both windows (also before HEADERS, after END_STREAM, on reset/cancelled/closed streams, beyond Content-Length), application Read(n), Body.Close, request cancel, server RST_STREAM, server RST_STREAM+DATA in one burst}; each sequence runs on a fresh real Transport ClientConn in its own synctest bubble; after every event at quiescence: white-box cc.inflow.avail+unsent+sum(unread bytes of open response bodies) == configured connection window, the same per open stream, advertised window == wire view, every WINDOW_UPDATE keeps the server's view <= configured and <= 2^31-1, and with no unread response data the server's view is within inflowMinRefresh of the configured window. non-trivial = at least one DATA frame was sent")
 	small := c09cliCfg{StrWin: 8}
 	large := c09cliCfg{}
 	respQ := [][2]int64{{-1, 0}, {5, 0}}
@@ -836,7 +861,7 @@ func c10cliRunParts(c *vx.Ctx) {
 	dSmallT := [][3]int64{{0, 0, 0}, {1, 0, 0}, {4, 0, 0}, {8, 0, 0}, {0, 3, 0}, {1, 3, 0}, {4, 3, 0}, {4, 0, 1}, {0, 0, 1}, {1, 3, 1}}
 	dLargeQ := [][3]int64{{4, 0, 0}, {10, 0, 0}, {16384, 0, 0}, {4, 3, 0}, {10, 0, 1}}
 	dLargeT := [][3]int64{{0, 0, 0}, {4, 0, 0}, {10, 0, 0}, {16384, 0, 0}, {4, 3, 0}, {16000, 3, 0}, {10, 0, 1}, {0, 0, 1}}
-	ext := []string{"C", "CANCEL", "RST"}
+	ext := []string{"C", "CANCEL", "RST", "RD"}
 	seedOpen := []string{"REQ(0)", "RESP(1,-1,0)", "D(1,4,0,0)"}
 	seedCL := []string{"REQ(0)", "RESP(1,5,0)"}
 	seedPost := []string{"REQ(1)", "RESP(1,-1,0)", "D(1,4,0,0)"}
